@@ -103,9 +103,6 @@ theorem mem_zonesOf (z : String) (l : List Inst) : z ∈ zonesOf l ↔ ∃ i ∈
 
 /-! ### facts about the walk that hold for every token circle -/
 
-theorem tokenInfo_mem {d : Desc} {t : Nat} {i : Inst} (h : tokenInfo d t = some i) : i ∈ d :=
-  List.mem_of_find?_eq_some h
-
 /-- Zone-aware, every instance in a named zone: the instances returned by the loop are registered
 instances, and its non-extending members lie in pairwise distinct zones. -/
 theorem walk_zone_facts (cfg : Cfg) (d : Desc) (zones : List String) (op : Op)
@@ -135,7 +132,7 @@ theorem walk_zone_facts (cfg : Cfg) (d : Desc) (zones : List String) (op : Op)
       · split at h
         · cases h
         · rename_i inst hinfo
-          have hinst : inst ∈ d := tokenInfo_mem hinfo
+          have hinst : inst ∈ d := PfC01.tokenInfo_mem hinfo
           split at h
           · exact ih st out h
           · split at h
@@ -191,91 +188,14 @@ theorem walk_zone_facts (cfg : Cfg) (d : Desc) (zones : List String) (op : Op)
                     · exact hinst
                     · exact ihd i hi'
 
-/-- not zone-aware (or any configuration): the loop only returns registered instances. -/
-theorem walk_subset (cfg : Cfg) (d : Desc) (zones : List String) (target : Nat) (op : Op) :
-    ∀ (L : List Nat) (st : WalkSt) (out : List Inst), walk cfg d zones target op L st = .ok out →
-      ∀ i ∈ out, i ∈ d := by
-  intro L
-  induction L with
-  | nil => intro st out h; rw [walk] at h; cases h; intro i hi; cases hi
-  | cons t rest ih =>
-    intro st out h
-    rw [walk] at h
-    split at h
-    · cases h; intro i hi; cases hi
-    · split at h
-      · cases h; intro i hi; cases hi
-      · split at h
-        · cases h
-        · rename_i inst hinfo
-          split at h
-          · exact ih st out h
-          · split at h
-            · cases h
-            · split at h
-              · exact ih st out h
-              · cases hw : walk cfg d zones target op rest (st.select cfg op inst) with
-                | error e => rw [hw] at h; cases h
-                | ok out' =>
-                  rw [hw] at h
-                  have hout : out = inst :: out' := by cases h; rfl
-                  subst hout
-                  intro i hi
-                  rcases List.mem_cons.mp hi with rfl | hi'
-                  · exact tokenInfo_mem hinfo
-                  · exact ih _ out' hw i hi'
-
-/-- what a successful `Get` tells us, for any token circle -/
-theorem get_ok_inv (cfg : Cfg) (d : Desc) (toks : List Nat) (key : Nat) (op : Op) (now : Int) (W : RSet)
-    (h : C01.get cfg d toks key op now = .ok W) :
-    cfg.rf ≠ 0 ∧ ∃ l, walk cfg d (ringZones d) 1 op (rot toks (searchToken toks key)) { size := cfg.rf } = .ok l ∧
-      W.instances = l.filter (isHealthy op cfg.hbTimeout now) ∧
-      W.instances.length - W.maxErrors = majority cfg.rf l.length := by
-  unfold C01.get getWith at h
-  have hrfI : (if (cfg.rf : Int) ≤ 0 ∨ (cfg.rf : Int) < (cfg.rf : Int) then cfg.rf else (cfg.rf : Int).toNat) = cfg.rf := by
-    split
-    · rfl
-    · exact Int.toNat_natCast _
-  split at h
-  · cases h
-  · simp only [hrfI] at h
-    rw [if_neg (Nat.lt_irrefl _)] at h
-    unfold findInstancesForKey at h
-    by_cases h0 : cfg.rf = 0
-    · rw [if_pos h0] at h; cases h
-    · rw [if_neg h0] at h
-      have htarget : max 1 (cfg.rf / cfg.rf) = 1 := by rw [Nat.div_self (by omega)]; rfl
-      simp only [htarget] at h
-      cases hw : walk cfg d (ringZones d) 1 op (rot toks (searchToken toks key)) { size := cfg.rf } with
-      | error e => rw [hw] at h; cases h
-      | ok l =>
-        rw [hw] at h
-        have hf : C01.filter cfg op now cfg.rf l = .ok W := h
-        rw [PfC01.filter_exact] at hf
-        refine ⟨h0, l, rfl, ?_⟩
-        split at hf
-        · cases hf
-        · rename_i hge
-          cases hf
-          refine ⟨rfl, ?_⟩
-          simp only
-          have := PfC01.majority_pos cfg.rf l.length
-          omega
-
-theorem majority_ge (rf n : Nat) : rf / 2 + 1 ≤ majority rf n := by
-  unfold majority
-  have : rf ≤ max rf n := Nat.le_max_left _ _
-  have := Nat.div_le_div_right (c := 2) this
-  omega
-
 /-! ### C02, not zone-aware -/
 
 theorem quorum_intersect_flat (cfg : Cfg) (d : Desc) (toks toks' : List Nat) (key : Nat) (now : Int)
     (W : RSet) (R : RSetAll) (A B : List Inst) (hza : cfg.zoneAware = false)
     (hW : C01.get cfg d toks key opWrite now = .ok W) (hR : getAll cfg d toks' opRead now = .ok R)
     (hA : writeOk A W) (hB : readOkFlat B R) : ∃ i, i ∈ A ∧ i ∈ B := by
-  obtain ⟨hrf, l, hwalk, hWi, hWn⟩ := get_ok_inv cfg d toks key opWrite now W hW
-  have hld : ∀ i ∈ l, i ∈ d := walk_subset cfg d _ 1 opWrite _ _ l hwalk
+  obtain ⟨hrf, l, hwalk, hWi, hWn⟩ := PfC01.get_ok_inv cfg d toks key opWrite now W hW
+  have hld : ∀ i ∈ l, i ∈ d := PfC01.walk_subset cfg d _ 1 opWrite _ _ l hwalk
   have hAd : ∀ a ∈ A, a ∈ d := by
     intro a ha
     have := hA.2.1 a ha
@@ -300,7 +220,7 @@ theorem quorum_intersect_flat (cfg : Cfg) (d : Desc) (toks toks' : List Nat) (ke
       simp only at hBn
       have hAn := hA.2.2
       rw [hWn] at hAn
-      have hm := majority_ge cfg.rf l.length
+      have hm := PfC01.majority_ge cfg.rf l.length
       apply pigeonhole A B d hA.1 hB.1 hAd hBd
       have h2 : cfg.rf / 2 ≤ cfg.rf := Nat.div_le_self _ _
       have h3 : d.length ≤ max d.length cfg.rf := Nat.le_max_left _ _
@@ -324,7 +244,7 @@ theorem quorum_intersect_zones (cfg : Cfg) (d : Desc) (toks toks' : List Nat) (k
     (hW : C01.get cfg d toks key opWrite now = .ok W) (hR : getAll cfg d toks' opRead now = .ok R)
     (hA : writeOk A W) (hZ : readOkZones Zs R) :
     ∃ i, i ∈ A ∧ i ∈ R.instances ∧ i.zone ∈ Zs := by
-  obtain ⟨hrf, l, hwalk, hWi, hWn⟩ := get_ok_inv cfg d toks key opWrite now W hW
+  obtain ⟨hrf, l, hwalk, hWi, hWn⟩ := PfC01.get_ok_inv cfg d toks key opWrite now W hW
   obtain ⟨hnodup, _, hld⟩ := walk_zone_facts cfg d _ opWrite hza hz _ _ l hwalk
   -- write side: members of A are healthy ACTIVE registered instances in pairwise distinct zones
   have hAl : ∀ a ∈ A, a ∈ l.filter (fun i => !extendsOn opWrite i.state) ∧ isHealthy opRead cfg.hbTimeout now a = true ∧ a ∈ d := by
@@ -338,7 +258,7 @@ theorem quorum_intersect_zones (cfg : Cfg) (d : Desc) (toks toks' : List Nat) (k
     map_nodup_of_subset (·.zone) _ A hnodup hA.1 (fun a ha => (hAl a ha).1)
   have hAn := hA.2.2
   rw [hWn] at hAn
-  have hm := majority_ge cfg.rf l.length
+  have hm := PfC01.majority_ge cfg.rf l.length
   -- read side
   unfold getAll at hR
   dsimp only at hR
@@ -408,5 +328,53 @@ theorem quorum_intersect_zones (cfg : Cfg) (d : Desc) (toks toks' : List Nat) (k
       rcases (mem_zonesOf _ _).mp (hZsub _ hzZ) with ⟨j, hj, hjz⟩
       have hnf : a.zone ∉ F := hjz ▸ (hRsub j hj).2
       exact hRmem a (hAl a ha).2.2 (hAl a ha).2.1 hnf
+
+/-! ### facts about a successful `GetReplicationSetForOperation` -/
+
+/-- the returned instances are a sub-list of the descriptor (so: registered, and pairwise distinct
+whenever the descriptor has no duplicate entry); the tolerances are in range. -/
+theorem getAll_ok_facts (cfg : Cfg) (d : Desc) (toks : List Nat) (op : Op) (now : Int) (R : RSetAll)
+    (h : getAll cfg d toks op now = .ok R) :
+    R.instances.Sublist d ∧ R.zoneAware = cfg.zoneAware ∧ (cfg.zoneAware = true → R.maxErrors = 0) ∧
+    (cfg.zoneAware = false → R.maxUnavailableZones = 0 ∧ (1 ≤ cfg.rf → R.maxErrors < R.instances.length)) := by
+  unfold getAll at h
+  dsimp only at h
+  by_cases h0 : toks.length = 0
+  · rw [if_pos h0] at h; cases h
+  · rw [if_neg h0] at h
+    cases hza : cfg.zoneAware
+    · rw [hza] at h
+      simp only [Bool.false_eq_true, if_false] at h
+      have hmax : (if d.length < cfg.rf then cfg.rf else d.length) = max d.length cfg.rf := by
+        rw [Nat.max_def]; split <;> split <;> omega
+      rw [hmax] at h
+      by_cases hlt : (d.filter (isHealthy op cfg.hbTimeout now)).length < max d.length cfg.rf - cfg.rf / 2
+      · rw [if_pos hlt] at h; cases h
+      · rw [if_neg hlt] at h
+        cases h
+        refine ⟨List.filter_sublist, rfl, (fun hh => by cases hh), fun _ => ⟨rfl, ?_⟩⟩
+        intro hrf
+        simp only
+        have h4 : cfg.rf ≤ max d.length cfg.rf := Nat.le_max_right _ _
+        have h2 : cfg.rf / 2 < cfg.rf := Nat.div_lt_self (by omega) (by omega)
+        omega
+    · rw [hza] at h
+      simp only [if_true] at h
+      split at h
+      · cases h
+      · cases h
+        refine ⟨?_, rfl, fun _ => rfl, (fun hh => by cases hh)⟩
+        simp only
+        split
+        · exact List.Sublist.trans List.filter_sublist List.filter_sublist
+        · exact List.filter_sublist
+
+theorem getAll_nodup (cfg : Cfg) (d : Desc) (toks : List Nat) (op : Op) (now : Int) (R : RSetAll)
+    (hid : (d.map (·.id)).Nodup) (h : getAll cfg d toks op now = .ok R) : R.instances.Nodup :=
+  List.Nodup.sublist (getAll_ok_facts cfg d toks op now R h).1 (PfC01.nodup_of_map _ _ hid)
+
+theorem getAll_mem (cfg : Cfg) (d : Desc) (toks : List Nat) (op : Op) (now : Int) (R : RSetAll)
+    (h : getAll cfg d toks op now = .ok R) : ∀ i ∈ R.instances, i ∈ d :=
+  fun i hi => (getAll_ok_facts cfg d toks op now R h).1.subset hi
 
 end PfC02
